@@ -41,7 +41,10 @@ type c04Case struct {
 	Pivot      bool
 	Names      bool // HostName / DomainName
 	WorkDir    bool
-	CgroupFd   bool
+	// how the work dir is spelled: 0 plain; 1 "<base>/current/../shared" with current -> runs/7 (the kernel means
+	// <base>/runs/shared; <base>/shared exists too); 2 "<base>/runs/7/../shared/." (no symlink involved)
+	WDShape  int `json:",omitempty"`
+	CgroupFd bool
 	// capabilities missing from the *launcher's* effective set while it starts the child (a service with a trimmed
 	// capability set): the launch may be refused, but a program that does start must still be in the requested state
 	LauncherDrop []int `json:",omitempty"`
@@ -128,6 +131,7 @@ func c04GenRandom(rt *rapid.T) c04Case {
 		Pivot:      rapid.Bool().Draw(rt, "pivot"),
 		Names:      rapid.Bool().Draw(rt, "names"),
 		WorkDir:    rapid.Bool().Draw(rt, "workdir"),
+		WDShape:    rapid.SampledFrom([]int{0, 0, 1, 1, 2}).Draw(rt, "wdshape"),
 		CgroupFd:   rapid.IntRange(0, 3).Draw(rt, "cgroupfd") == 0,
 	}
 	switch rapid.IntRange(0, 9).Draw(rt, "launchercaps") {
@@ -146,6 +150,25 @@ func c04GenRandom(rt *rapid.T) c04Case {
 		}
 	}
 	return c04Normalize(c)
+}
+
+// c04DataDir prepares <dir>/data: runs/7, runs/shared, shared, current -> runs/7.
+func c04DataDir(dir string) string {
+	d := filepath.Join(dir, "data")
+	if _, err := os.Lstat(filepath.Join(d, "current")); err != nil {
+		os.MkdirAll(filepath.Join(d, "runs", "7"), 0o755)
+		os.MkdirAll(filepath.Join(d, "runs", "shared"), 0o755)
+		os.MkdirAll(filepath.Join(d, "shared"), 0o755)
+		os.Symlink("runs/7", filepath.Join(d, "current"))
+	}
+	return d
+}
+
+func c04WorkDir(base string, shape int) string {
+	if shape == 1 {
+		return base + "/current/../shared"
+	}
+	return base + "/runs/7/../shared/."
 }
 
 type c04Obs struct {
@@ -226,6 +249,9 @@ func c04Launch(c c04Case, dir string) (*c04Obs, error) {
 		root = filepath.Join(dir, "root")
 		os.MkdirAll(root, 0o755)
 		mb := mount.NewBuilder().WithTmpfs("w", "").WithTmpfs("tmp", "")
+		if c.WDShape != 0 {
+			mb.WithBind(c04DataDir(dir), "data", true)
+		}
 		mp, err := mb.Build()
 		if err != nil {
 			rp.finish()
@@ -234,8 +260,14 @@ func c04Launch(c c04Case, dir string) (*c04Obs, error) {
 		r.PivotRoot = root
 		r.Mounts = mp
 		r.WorkDir = "/w"
+		if c.WDShape != 0 {
+			r.WorkDir = c04WorkDir("/data", c.WDShape)
+		}
 	} else if c.WorkDir {
 		r.WorkDir = dir
+		if c.WDShape != 0 {
+			r.WorkDir = c04WorkDir(c04DataDir(dir), c.WDShape)
+		}
 	}
 	if c.Names {
 		r.HostName, r.DomainName = "vp-host", "vp-domain"
@@ -502,12 +534,19 @@ func c04Check(c c04Case, o *c04Obs, own map[string]string, dir string) error {
 		return viol("session", "sid %d != pid %d", rep.IDs["sid"][0], rep.IDs["pid"][0])
 	}
 	// cwd
-	if c.Pivot {
-		if rep.Cwd != "/w" {
-			return viol("cwd", "cwd %q want /w inside the new root", rep.Cwd)
-		}
-	} else if c.WorkDir && rep.Cwd != dir {
-		return viol("cwd", "cwd %q want %q", rep.Cwd, dir)
+	wantCwd := ""
+	switch {
+	case c.Pivot && c.WDShape != 0:
+		wantCwd = "/data/runs/shared"
+	case c.Pivot:
+		wantCwd = "/w"
+	case c.WorkDir && c.WDShape != 0:
+		wantCwd = filepath.Join(c04DataDir(dir), "runs/shared")
+	case c.WorkDir:
+		wantCwd = dir
+	}
+	if wantCwd != "" && rep.Cwd != wantCwd {
+		return viol("cwd", "cwd %q, the requested work dir (shape %d) is %q", rep.Cwd, c.WDShape, wantCwd)
 	}
 	// names
 	if c.Names && (rep.Node != "vp-host" || rep.Domain != "vp-domain") {
@@ -561,6 +600,9 @@ func c04Run(c c04Case, dir string, own map[string]string, rec *vh.Recorder) erro
 		return err
 	}
 	classes := []string{variant, "cred=" + c.Cred, fmt.Sprintf("dropcaps=%v", c.DropCaps)}
+	if c.WorkDir || c.Pivot {
+		classes = append(classes, fmt.Sprintf("workdir-shape=%d(pivot=%v)", c.WDShape, c.Pivot))
+	}
 	if len(c.LauncherDrop) > 0 {
 		classes = append(classes, "launcher-effective-set-trimmed:started")
 	}
@@ -581,7 +623,7 @@ func c04OwnNS() map[string]string {
 	return m
 }
 
-const c04Rule = "case = forkexec.Runner option set: Credential in {nil, uid/gid/groups, NoSetGroups, uid 0} x DropCaps x NoNewPrivs x Seccomp x Ptrace x StopBeforeSeccomp x SyncFunc x UnshareCgroupAfterSync x subsets of {user,pid,mnt,uts,ipc,net,cgroup} namespaces x pivot root+mounts x host/domain name x work dir x clone-into-cgroup2 x capabilities missing from the launcher's effective set {none, SETPCAP, SETUID, random subsets}; the lattice test enumerates all 16 combinations of the four flags selecting the code copy x {Credential, DropCaps, both, neither} x {no ns, user ns, all ns}; oracle = probe self-report + /proc/<pid>/{status,ns,cgroup}; non-trivial = >=3 options incl. one of Credential/DropCaps/Seccomp"
+const c04Rule = "case = forkexec.Runner option set: Credential in {nil, uid/gid/groups, NoSetGroups, uid 0} x DropCaps x NoNewPrivs x Seccomp x Ptrace x StopBeforeSeccomp x SyncFunc x UnshareCgroupAfterSync x subsets of {user,pid,mnt,uts,ipc,net,cgroup} namespaces x pivot root+mounts x host/domain name x work dir (plain, '..' after a symlinked component, '..' and '.' without symlink) x clone-into-cgroup2 x capabilities missing from the launcher's effective set {none, SETPCAP, SETUID, random subsets}; the lattice test enumerates all 16 combinations of the four flags selecting the code copy x {Credential, DropCaps, both, neither} x {no ns, user ns, all ns}; oracle = probe self-report + /proc/<pid>/{status,ns,cgroup}; non-trivial = >=3 options incl. one of Credential/DropCaps/Seccomp"
 
 func TestC04Lattice(t *testing.T) {
 	rec := vh.NewRecorder(t, "C04", "exploration", c04Rule)
@@ -611,6 +653,7 @@ func TestC04Lattice(t *testing.T) {
 							continue
 						}
 						c.NoNewPrivs, c.StopBefore, c.Pivot, c.Names, c.WorkDir, c.CgroupFd = true, mask%3 == 0, true, true, true, mask%2 == 0
+						c.WDShape = mask % 3
 					}
 					if err := c04Run(c, dir, own, rec); err != nil {
 						vh.Report(t, rec, c, err)
